@@ -361,8 +361,8 @@ func HVolumes(L int) {
 	}
 }
 
-var isoTargets = []string{"a", `..\w\a`, `\w\a`, "V:\\w\\a", `a\..\a`}
-var isoQueries = [][]string{{"w", "l"}, {"w", "l", "f"}, {"w", "l", "n"}, {"w", "a", "f"}}
+var isoTargets = []string{"a", `..\a`, `\w\a`, "V:\\w\\a", `..\x\..\a`, `..\..\w\a`}
+var isoQueries = [][]string{{"w", "x", "l"}, {"w", "x", "l", "f"}, {"w", "x", "l", "n"}, {"w", "a", "f"}}
 var isoOps = []string{"Stat", "ReadFile", "WriteFile", "Mkdir", "ReadDir", "Remove", "Truncate"}
 
 // HVolumeIso: a volume added with VolumeAdd behaves as the default volume: the
@@ -370,11 +370,6 @@ var isoOps = []string{"Stat", "ReadFile", "WriteFile", "Mkdir", "ReadDir", "Remo
 // rooted or absolute) is built on C: and on D:, one call is made through it on
 // each, and outcome, error value and resulting entries are the same.
 func HVolumeIso() {
-	v := memfs.NewWithOptions(&memfs.Options{OSType: avfs.OsWindows})
-	if v.OSType() != avfs.OsWindows {
-		sym.Cut("a Windows-typed instance cannot be constructed")
-	}
-	hx.Must(v.VolumeAdd("D:"))
 	ti := sym.Choose("target", len(isoTargets))
 	qi := sym.Choose("query", len(isoQueries))
 	opn := isoOps[sym.Choose("op", len(isoOps))]
@@ -382,30 +377,41 @@ func HVolumeIso() {
 	label := "memfs|volume-isomorphism|" + opn
 	sym.Label(label)
 	sym.Reach("volume-iso")
-	on := func(vol string, comps ...string) string {
-		p := vol + `\`
-		for _, c := range comps {
-			p = v.Join(p, c)
-		}
-		return p
-	}
 	var errs [2]error
 	var ents [2]string
+	// two instances: the tree lives on C: in the first and on D: in the second
+	// (whose C: stays empty, so that a walk straying to the default volume shows)
 	for i, vol := range []string{"C:", "D:"} {
-		hx.Must(v.MkdirAll(on(vol, "w", "a"), 0o755))
-		hx.Must(v.WriteFile(on(vol, "w", "a", "f"), []byte("x"), 0o644))
+		v := memfs.NewWithOptions(&memfs.Options{OSType: avfs.OsWindows})
+		if v.OSType() != avfs.OsWindows {
+			sym.Cut("a Windows-typed instance cannot be constructed")
+		}
+		if vol != "C:" {
+			hx.Must(v.VolumeAdd(vol))
+		}
+		on := func(comps ...string) string {
+			p := vol + `\`
+			for _, c := range comps {
+				p = v.Join(p, c)
+			}
+			return p
+		}
+		hx.Must(v.MkdirAll(on("w", "a"), 0o755))
+		hx.Must(v.WriteFile(on("w", "a", "f"), []byte("x"), 0o644))
 		t := isoTargets[ti]
 		if len(t) > 1 && t[0] == 'V' {
 			t = vol + t[2:]
 		}
-		hx.Must(v.Symlink(t, on(vol, "w", "l")))
-		q := on(vol, isoQueries[qi]...)
+		// the link lives in another directory than its target: following it moves the walk
+		hx.Must(v.Mkdir(on("w", "x"), 0o755))
+		hx.Must(v.Symlink(t, on("w", "x", "l")))
+		q := on(isoQueries[qi]...)
 		res := sym.Outcome(func() {
 			errs[i] = doErr(v, opn, q, "", scal{data: data, size: 0})
 		})
 		sym.Assert(!res.Panicked, "C17|"+label+"|panic|"+res.Class+"|"+res.Site)
-		for _, u := range [][]string{{"w"}, {"w", "a"}, {"w", "a", "f"}, {"w", "a", "n"}, {"w", "l"}} {
-			ents[i] += entry(v, on(vol, u...)) + ";"
+		for _, u := range [][]string{{"w"}, {"w", "a"}, {"w", "a", "f"}, {"w", "a", "n"}, {"w", "x"}, {"w", "x", "l"}} {
+			ents[i] += entry(v, on(u...)) + ";"
 		}
 	}
 	sym.Observe("C", class(errs[0]))
